@@ -958,6 +958,9 @@ class Engine:
             q.assume(g_)
         if inv.out is not None:
             q.out = inv.out
+        # vacuity guard: an invariant that contradicts itself would make every obligation after it pass
+        if q.trail and q.trail[-1].endswith(("i", "w")):
+            self.emit(q, "cover", f"cover/invariant-assumed@{q.trail[-1]}", z3.BoolVal(True), expect="sat")
 
     def run_for_items(self, st, p: Path, a):
         """for key, val in <attributes>.items(): index-based cut (ghost index L.k)"""
